@@ -10,9 +10,13 @@ import (
 	"fmt"
 	"math/big"
 	"os"
+	"runtime"
 	"sync"
 	"time"
 )
+
+// baseline is the number of goroutines alive when the harness run began.
+var baseline int
 
 var (
 	mu      sync.Mutex
@@ -62,6 +66,7 @@ func ResetAndLoad() {
 	Covered = map[string]bool{}
 	loaded = false
 	load()
+	baseline = runtime.NumGoroutine()
 }
 
 func key(name string) string {
@@ -168,8 +173,23 @@ func NowNs() int64 { return time.Now().UnixNano() }
 // Quiesce lets every other goroutine run until none can progress and returns
 // the number still alive (blocked). Natively it is approximated by a pause.
 func Quiesce() int {
-	time.Sleep(50 * time.Millisecond)
-	return 0
+	// wait until the goroutines started since the run began are gone, or until
+	// their number has not changed for a while (blocked for good), at most 10 s
+	start := time.Now()
+	last, stableSince := runtime.NumGoroutine(), start
+	for {
+		time.Sleep(2 * time.Millisecond)
+		n, now := runtime.NumGoroutine(), time.Now()
+		if baseline > 0 && n <= baseline && now.Sub(start) >= 10*time.Millisecond {
+			return 0
+		}
+		if n != last {
+			last, stableSince = n, now
+		}
+		if now.Sub(stableSince) > 500*time.Millisecond || now.Sub(start) > 10*time.Second {
+			return 0
+		}
+	}
 }
 
 // HeldLocks is the number of mutex/rwmutex acquisitions currently held (engine only).
